@@ -164,6 +164,8 @@ def _num(r):
         return complex(r[1] / r[3], r[2] / r[3])
     if k == "pi":
         return float(np.pi * r[1] / r[2])
+    if k == "nz":
+        return -0.0                 # equal to 0.0, stored differently
     if k == "s":
         return sympy.Symbol(r[1])
     if k == "e":
@@ -342,14 +344,31 @@ class Builder:
              "phase_damp": cirq.phase_damp, "bit_flip": cirq.bit_flip, "phase_flip": cirq.phase_flip}[kind]
         return f(_num(p))
 
-    def b_matrix(self, rows, shape, name):
+    def b_matrix(self, rows, shape, name, opts=None):
         m = np.array([[_num(x) for x in row] for row in rows])
         kw = {}
+        if opts:
+            if opts.get("dtype"):
+                m = m.astype(getattr(np, opts["dtype"]))      # same entries, stored with another dtype
+            if "unitary_check" in opts:
+                kw["unitary_check"] = opts["unitary_check"]
         if shape is not None:
             kw["qid_shape"] = tuple(shape)
         if name is not None:
             kw["name"] = name
         return cirq.MatrixGate(m, **kw)
+
+    def b_kraus(self, ops, key):
+        kw = {} if key is None else {"key": key}
+        return cirq.KrausChannel([np.array([[_num(x) for x in row] for row in m]) for m in ops], **kw)
+
+    def b_mixedunitary(self, mixture, key):
+        kw = {} if key is None else {"key": key}
+        return cirq.MixedUnitaryChannel(
+            [(_num(p), np.array([[_num(x) for x in row] for row in m])) for p, m in mixture], **kw)
+
+    def b_lineardict(self, terms):
+        return cirq.LinearDict({(tuple(k) if isinstance(k, list) else k): _num(v) for k, v in terms})
 
     def b_wait(self, duration, shape):
         return cirq.WaitGate(self.build(duration), qid_shape=tuple(shape))
@@ -476,7 +495,13 @@ class Builder:
 
     # -- results / containers -------------------------------------------------------------------------
     def b_result(self, params, records):
-        recs = {k: np.array(v, dtype=np.uint8) for k, v in records}
+        recs = {}
+        for entry in records:
+            k, v = entry[0], entry[1]
+            arr = np.array(v, dtype=np.uint8)
+            if len(entry) > 2:
+                arr = arr.reshape(tuple(entry[2]))       # keeps the 3D shape of a result with zero repetitions
+            recs[k] = arr
         return cirq.ResultDict(params=self.build(params), records=recs)
 
     def b_list(self, items):
@@ -761,6 +786,22 @@ def _derive_one(x, method: str, args):
             raise NotApplicable
         shape = cirq.qid_shape(x)
         return x.on(*[cirq.LineQid(i, dimension=d) for i, d in enumerate(shape)])
+    if method == "tableau_apply":
+        # IN PLACE: the held object itself is updated (and returned) -- a hash cached before must not survive
+        if not isinstance(x, cirq.CliffordTableau) or x.n < 1:
+            raise NotApplicable
+        which, axis = args[0], args[1] % x.n
+        if which == "x":
+            x.apply_x(axis)
+        elif which == "h":
+            x.apply_h(axis)
+        elif which == "z":
+            x.apply_z(axis)
+        else:
+            if x.n < 2:
+                raise NotApplicable
+            x.apply_cx(axis, (axis + 1) % x.n)
+        return x
     if method == "with_classical_controls":
         if not is_op or cirq.measurement_key_names(x):
             raise NotApplicable
@@ -808,6 +849,8 @@ def derive_family(v) -> str:
         return "mkey"
     if isinstance(x, cirq.Qid):
         return "qid"
+    if isinstance(x, cirq.CliffordTableau):
+        return "tableau"
     return "other" if _is_cirq_obj(x) else "none"
 
 
@@ -1030,6 +1073,14 @@ def payload_of(v, path="", depth=0, out=None):
                 continue
             if isinstance(x, (dict, np.ndarray, pd.DataFrame)):
                 payload_of(x, f"{path}<{_tname(v)}>.{attr}", depth + 1, out)
+        try:
+            attrs = vars(v)
+        except TypeError:
+            attrs = {}
+        for k in sorted(attrs):
+            # boolean flags of the instance (not caches): == may ignore them (ConstantQubitNoiseModel._prepend)
+            if isinstance(attrs[k], bool) and "cache" not in k and not k.startswith("__"):
+                out.append((f"{path}<{_tname(v)}>#{k}", ("flag", attrs[k])))
         if hasattr(v, "_json_dict_"):
             try:
                 d = v._json_dict_()
@@ -1046,6 +1097,15 @@ def payload_compare(got, ref, exact: bool) -> dict:
     be identical (pickle, copy).  Otherwise a dtype may also be the one numpy gives the listed form of the
     reference array -- a JSON document that stores a nested list carries no dtype (complex64 -> complex128)."""
     out = {"same": True, "where": None, "detail": None, "n": len(ref)}
+    # boolean flags: compared where both sides have them (a lazily set flag may be absent on one side)
+    gflags = {p: d for p, d in got if d[0] == "flag"}
+    for p, d in ref:
+        if d[0] == "flag" and p in gflags and gflags[p] != d:
+            out.update(same=False, where=p, detail=f"flag {d[1]} -> {gflags[p][1]}")
+            return out
+    got = [(p, d) for p, d in got if d[0] != "flag"]
+    ref = [(p, d) for p, d in ref if d[0] != "flag"]
+    out["n"] = len(ref)
     if [p for p, _ in got] != [p for p, _ in ref]:
         if exact:
             # the walk goes through _json_dict_ trees: a pickle or a copy has its payloads in the same places
@@ -1233,6 +1293,40 @@ def op_build(req):
     HELD[req["slot"]] = v
     out = _describe(v)
     out["rejected"] = False
+    return out
+
+
+def op_twin(req):
+    """Two recipes that spell the same value differently (1 / 1.0, 0.0 / -0.0, another array dtype, a dict written
+    in another order): IF the two values are ==, they must hash alike and find each other in a dict."""
+    a = build_value(req["recipe_a"])
+    try:
+        b = Builder(validate=False).build(req["recipe_b"])
+    except Rejected as r:
+        return {"rejected": True, "why": str(r)}
+    except Exception as e:  # noqa: BLE001 - the other spelling is not accepted (3.0 qubits): nothing to compare
+        return {"rejected": True, "why": type(e).__name__}
+    try:
+        eq = _eq(a, b) and _eq(b, a)
+    except Exception as e:  # noqa: BLE001
+        return {"rejected": True, "why": "eq-raises:" + type(e).__name__}
+    out = {"rejected": False, "eq": bool(eq), "hash_eq": True, "lookup": True, "where": None, "hashable": False}
+    if not eq:
+        return out
+    for x, y in _elements(a, b):
+        hx, vx = _sut("twin:hash", _try_hash, x)
+        hy, vy = _sut("twin:hash", _try_hash, y)
+        if not (hx and hy):
+            continue
+        out["hashable"] = True
+        if vx != vy:
+            out["hash_eq"] = False
+            out["where"] = locate_hash_differs(x, y)
+            break
+        if {y: 1}.get(x) != 1:
+            out["lookup"] = False
+            out["where"] = _tname(x)
+            break
     return out
 
 
@@ -1426,13 +1520,15 @@ def op_report(req):
     slots = list(req["slots"])
     vals = [HELD[s] for s in slots]
     cls = list(range(len(vals)))
-    bad_hash, bad_lookup, asym = [], [], []
+    bad_hash, bad_lookup, asym, eq_raises = [], [], [], []
     for i in range(len(vals)):
         for j in range(i + 1, len(vals)):
             a, b = vals[i], vals[j]
             try:
                 e1, e2 = _eq(a, b), _eq(b, a)
-            except Exception:  # noqa: BLE001 - unrelated types need not be comparable
+            except Exception as e:  # noqa: BLE001 - unrelated types need not be comparable
+                if type(a) is type(b) and _is_cirq_obj(a):
+                    eq_raises.append((slots[i], slots[j], _tname(a), type(e).__name__))
                 continue
             if e1 != e2:
                 asym.append((slots[i], slots[j], _tname(a), _tname(b)))
@@ -1449,7 +1545,7 @@ def op_report(req):
                         elif {y: 1}.get(x) != 1:
                             bad_lookup.append((slots[i], slots[j], _tname(x)))
     return {"types": [_tname(v) for v in vals], "classes": cls, "bad_hash": bad_hash,
-            "bad_lookup": bad_lookup, "asymmetric": asym}
+            "bad_lookup": bad_lookup, "asymmetric": asym, "eq_raises": eq_raises}
 
 
 def op_sort_qids(req):
@@ -1531,7 +1627,7 @@ def op_corpus_read(req):
 
 
 OPS = {"hello": op_hello, "reset": op_reset, "drop": op_drop, "build": op_build, "derive": op_derive,
-       "touch": op_touch,
+       "touch": op_touch, "twin": op_twin,
        "copy": op_copy, "export": op_export, "import": op_import, "report": op_report,
        "sort_qids": op_sort_qids, "corpus_read": op_corpus_read}
 
